@@ -7,7 +7,8 @@
     - src/api/ca.rs:429-437                       reduced_applicable_resources
     - src/server/ca/child.rs:243-371              activate_key, shrink_overclaiming, re_issue (carries the stored limit)
     - src/server/ca/rc.rs:203-275,354-473         process_received_cert, process_rcvd_cert_current (shrink in the same event list)
-    - src/server/ca/rc.rs:560-638                 append_keyroll_activate (re-issues ROAs unfiltered, child certificates unchanged)
+    - src/server/ca/rc.rs:560-638                 append_keyroll_activate (repaired tree: ROAs and child certificates limited to the
+                                                  new key's certificate; the pinned behaviour is kept as cl_activate_pinned)
     - src/server/ca/certauth.rs:986-1084          entitlement_class (incl. the not-after "lie")
     - src/server/ca/certauth.rs:1110-1133,1225-1261,1297-1328,1338-1416,1422-1466,1469-1509,1522-1571,1589-1657
                                                   child add / update resources / mapping / certify / revoke / remove / suspend / unsuspend
@@ -115,6 +116,28 @@ Fixpoint reissue_map (signing : N) (exp : Z) (m : certmap) : option certmap :=
       end
   end.
 
+(** child.rs:243-283 (repaired tree, F04c): at activation an issued certificate is reduced to what the new
+    key's certificate holds, like in [shrink_one], but always re-issued; removed if nothing is left.
+    (Suspended certificates are still re-issued as they are: [reissue_map].) *)
+Definition activate_one (signing : N) (exp : Z) (c : icert) : option shrunk :=
+  match reduced_applicable signing (i_res c) with
+  | Some r => if is_empty r then Some SRemove
+              else match re_issue c (Some r) signing exp with Some c' => Some (SReissue c') | None => None end
+  | None => match re_issue c None signing exp with Some c' => Some (SReissue c') | None => None end
+  end.
+
+Fixpoint activate_map (signing : N) (exp : Z) (m : certmap) : option (certmap * list N) :=
+  match m with
+  | [] => Some ([], [])
+  | (k, c) :: r =>
+      match activate_one signing exp c, activate_map signing exp r with
+      | Some SRemove, Some (r', rm) => Some (r', k :: rm)
+      | Some (SReissue c'), Some (r', rm) => Some ((k, c') :: r', rm)
+      | Some SKeep, Some (r', rm) => Some ((k, c) :: r', rm)
+      | _, _ => None
+      end
+  end.
+
 (** * Resource classes and children with their resources *)
 Record dclass := mkDC {
   d_parent : N; d_prcn : N;
@@ -200,15 +223,32 @@ Definition cl_received (routes : list (N * N)) (dc : dclass) (crt : cert) (na ex
   | KRollOld cur _ => cl_received_current routes dc cur crt na exp
   end.
 
-(** rc.rs:560-638, keys.rs:765-792. [Some None]: no new key, nothing happens for this class; [None]: error.
-    ROAs are re-issued as they are (create_renewal with force), not filtered by the new certificate. *)
-Definition cl_activate (dc : dclass) (exp : Z) : option (option dclass) :=
+(** rc.rs:560-638, keys.rs:765-792, roa.rs:744-815 (repaired tree, F04c). [Some None]: no new key, nothing
+    happens for this class; [None]: error. Only the ROAs the new key's certificate holds are re-issued, the
+    others are removed; issued child certificates are reduced or removed ([activate_map], the removed keys are
+    returned); suspended ones are re-issued as they are (MissingResources if one exceeds the new certificate). *)
+Definition cl_activate (dc : dclass) (exp : Z) : option (option (dclass * list N)) :=
   match d_keys dc with
   | KRollNew n cur =>
       if k_req n || k_req cur then None                                   (* KeyRollActivatePendingRequests *)
+      else match activate_map (c_res (k_cert n)) exp (d_issued dc), reissue_map (c_res (k_cert n)) exp (d_susp dc) with
+           | Some (i, rm), Some s =>
+               Some (Some (dc_with dc (KRollOld n cur) (d_kna dc) i s
+                                   (filter (fun '(_, m) => subset m (c_res (k_cert n))) (d_roas dc)), rm))
+           | _, _ => None                                                 (* MissingResources / limit *)
+           end
+  | _ => Some None
+  end.
+
+(** The originally pinned tree (finding F04c): ROAs re-issued as they are (create_renewal with force), child
+    certificates re-issued with unchanged resources or the whole command fails. *)
+Definition cl_activate_pinned (dc : dclass) (exp : Z) : option (option dclass) :=
+  match d_keys dc with
+  | KRollNew n cur =>
+      if k_req n || k_req cur then None
       else match reissue_map (c_res (k_cert n)) exp (d_issued dc), reissue_map (c_res (k_cert n)) exp (d_susp dc) with
            | Some i, Some s => Some (Some (dc_with dc (KRollOld n cur) (d_kna dc) i s (d_roas dc)))
-           | _, _ => None                                                 (* MissingResources *)
+           | _, _ => None
            end
   | _ => Some None
   end.
@@ -357,6 +397,18 @@ Fixpoint unsuspend_classes (ch : dchild) (now exp : Z) (cl : list (N * dclass)) 
       end
   end.
 
+(** activation over all classes: threads the removed child keys; [None]: some class refused *)
+Fixpoint activate_classes (exp : Z) (cl : list (N * dclass)) : option (list (N * dclass) * list N) :=
+  match cl with
+  | [] => Some ([], [])
+  | (c, dc) :: r =>
+      match cl_activate dc exp, activate_classes exp r with
+      | Some None, Some (r', rm') => Some ((c, dc) :: r', rm')
+      | Some (Some (dc', rm)), Some (r', rm') => Some ((c, dc') :: r', rm ++ rm')
+      | _, _ => None
+      end
+  end.
+
 Definition set_child (s : dca) (h : N) (dch : dchild) : list (N * dchild) := ainsert h dch (da_children s).
 
 Definition dprocess (s : dca) (cmd : dcmd) : outcome dca :=
@@ -470,13 +522,9 @@ Definition dprocess (s : dca) (cmd : dcmd) : outcome dca :=
               | _, _ => dc
               end) (da_classes s)))
   | XActivate exp =>                                                         (* certauth.rs:2093-2115 *)
-      match map_classes_opt (fun _ dc => match cl_activate dc exp with
-                                         | None => None
-                                         | Some None => Some dc
-                                         | Some (Some dc') => Some dc'
-                                         end) (da_classes s) with
+      match activate_classes exp (da_classes s) with
       | None => Refused
-      | Some cl => Done (da_with_classes s cl)
+      | Some (cl, rm) => Done (da_with s cl (revoke_keys rm (da_children s)))
       end
   | XRollFinish c =>                                                         (* rc.rs:641-650 *)
       match aget c (da_classes s) with
